@@ -28,6 +28,8 @@ FUNCS = [
     ("(t**2 + t + 2)*exp(-t) + exp(-3*t)", 4),
     ("exp(-t**2)", None), ("1/(1 + t)", None), ("log(1 + t)", None), ("tanh(t)", None),
     ("t - t", "nozero"), ("0*exp(-t)", "nozero"),
+    # decimal constants that are not short fractions: may be rejected (round-off in the order search), must not be approximated
+    ("exp(-t/1.6667)", "float"), ("0.123456*exp(-t/2.5)", "float"), ("t*exp(-t/2.3717)", "float"), ("1.00731*exp(-0.31337*t)", "float"), ("exp(-t/0.7071067)*2.718281", "float"),
 ]
 SLOW = [("t*sin(t)", 4), ("sin(t)*sin(2*t)", 4), ("t**2*exp(-t/tau1) + exp(-t/tau2)", 4)]
 
@@ -231,7 +233,7 @@ def run(ctx):
                 probe_failures.append({"key": "order out of range: " + expr, "what": "from_function(%s) returned order %s (documented maximum 4)" % (expr, o), "replay": rp_})
             if r.get("t_in_factors"):
                 probe_failures.append({"key": "time-dependent coefficients: " + expr, "what": "the replacing equation of %s has coefficients depending on t: %s" % (expr, r["factors"]), "replay": rp_})
-            if m is None or (isinstance(m, int) and m > 4):
+            if m is None or (isinstance(m, int) and not isinstance(m, bool) and m > 4):
                 probe_failures.append({"key": "function outside the class accepted: " + expr, "what": "%s satisfies no linear constant-coefficient ODE of order <= 4 but was accepted with order %s, factors %s" % (expr, o, r["factors"]), "replay": rp_})
             pr = r.get("probe", {})
             if "worst" in pr:
@@ -245,7 +247,7 @@ def run(ctx):
             else:
                 dist["probe_skipped"] += 1
         # ---- correspondence with the ideal-oracle model
-        if r.get("nonzero") is None:
+        if r.get("nonzero") is None or m == "float":
             continue
         if isinstance(o, str) and o.startswith("Error"):
             dist["rejected_by_other_exception"] = dist.get("rejected_by_other_exception", 0) + 1
